@@ -1268,10 +1268,8 @@ impl Tuple {
     }
 
     pub(crate) fn delete(&mut self, xid: TransactionId) -> TupleResult<()> {
-        if self.is_deleted() {
-            return Ok(());
-        }
-
+        // Callers only delete tuples that are visible to them, so an xmax that is already
+        // set was left by a transaction whose delete did not take effect (it aborted).
         let buffer = self.data.effective_data_mut();
         let (mut header, _) = TupleHeader::read_from(buffer, 0);
         header.xmax = xid as i64;
